@@ -456,7 +456,11 @@ def intoWriter : Buf → MOut
   | .eh base dg => ofSR (cr (.eh base dg) true)
 
 def discard : Buf → MOut
-  | .cloned _ _ _ => { res := unit }           -- toChunkReader(false, ..).Close()
+  | .cloned base _ sibs =>
+    -- toChunkReader(false, ..).Close(); whoever arrives last creates the shared reader
+    match (cr base (wantsValidation false sibs)).res with
+    | .panic => MOut.panic
+    | _ => { res := unit }
   | .task base _ t _ =>
     match (discard base).res with
     | .panic => MOut.panic
@@ -526,6 +530,9 @@ structure Env where
   /-- `decorateBuffer` passes `digest` and `source` on to the decorated clones (the repair of D1);
   `false`: the code as pinned, which leaves them zero -/
   repaired : Bool := true
+  /-- `validatedReaderBuffer.WithTask` releases the buffer when the foreground task fails (the
+  repair of D11); `false`: the code as pinned, which drops it without `Discard` -/
+  ratRepaired : Bool := true
 deriving Repr
 
 def baseBuf (env : Env) : Kind → Buf
@@ -631,5 +638,38 @@ def exec (env : Env) (e : BufExpr) (m : Method) : Option MOut :=
   match build env e 0 with
   | some (b, _) => some (call b m)
   | none => none
+
+/-! ### release of the underlying source
+
+Every path of every method releases the buffer it is called on, clones count
+references; the one place where a buffer is dropped is the failing foreground
+task of a reader-at buffer in the pinned code. -/
+
+/-- the program drops a buffer without releasing it -/
+def leaks (env : Env) : BufExpr → Bool
+  | .base _ => false
+  | .cloneStream e _ _ => leaks env e
+  | .cloneCopy e _ => leaks env e
+  | .withErrorHandler e => leaks env e
+  | .withTask e r =>
+    leaks env e || (!env.ratRepaired && r.isSome &&
+      match build env e 0 with
+      | some (.readerAt _, _) => true
+      | _ => false)
+
+def baseKind : BufExpr → Kind
+  | .base k => k
+  | .cloneStream e _ _ => baseKind e
+  | .cloneCopy e _ => baseKind e
+  | .withTask e _ => baseKind e
+  | .withErrorHandler e => baseKind e
+
+/-- How often the source (`ReadAtCloser`, `io.ReadCloser`, `ChunkReader`) has been
+closed once the method has returned and the goroutines owning the other
+handles are done; `none`: the base buffer has no source. -/
+def closes (env : Env) (e : BufExpr) : Option Nat :=
+  match baseKind e with
+  | .err _ | .bytes => none
+  | _ => some (if leaks env e then 0 else 1)
 
 end BB.Mux
